@@ -23,3 +23,13 @@ Definition channel_ok (exit_on_error : bool) (o : observation) : bool :=
   | Raised ae => negb exit_on_error && ae
   | Hung => false
   end.
+
+(* Exit status 0 is the outcome of a REQUEST (--help, --version, --print_config, a .help option): a call whose own input
+   holds no such request and that nevertheless ends in SystemExit(0) did not report through the channel either (for
+   instance a request left behind by an earlier, failed call on the same parser). *)
+Definition channel_ok_asked (exit_on_error asked : bool) (o : observation) : bool :=
+  channel_ok exit_on_error o &&
+  match o with
+  | Exited s _ => if Z.eqb s 0 then asked else true
+  | _ => true
+  end.
